@@ -27,7 +27,7 @@ A_ALL = ["A1", "A2", "A3", "A4", "A5", "A7", "A8", "A9", "A10", "A11"]
 TOKENIZER = ["F7", "F11", "F12", "F20", "F21", "F24"]
 # Rules that are necessary for the captured op list to be a valid edit script at all; every property that reads text
 # back out of the ops (C04 reconstruction, C05 hunks, C17 remapping) depends on them.
-SCRIPT_VALID = ["E1", "E2", "E3", "E5", "E6", "E7", "E9", "E10", "G12", "B6", "B7", "B8", "G3", "G9", "G12", "G5", "G6", "G7", "B5", "F1", "F5", "F13"]
+SCRIPT_VALID = ["E1", "E2", "E3", "E5", "E6", "E7", "E9", "E10", "G12", "B6", "B7", "B8", "G3", "G9", "G12", "G13", "G5", "G6", "G7", "B5", "F1", "F5", "F13"]
 
 
 def a_rules(files, rules=A_ALL):
@@ -48,7 +48,7 @@ PROPERTIES = {
     },
     "C02": {
         "level": "other",
-        "rules": ["F1", "F2", "F33", "F5", "F29", "B5", "G3", "G5", "G6", "G7", "F13", "F16", "E2", "E3", "E5", "E6", "E7", "E9", "E10", "G12"] + a_rules(PIPE + ALG),
+        "rules": ["F1", "F2", "F33", "F5", "F29", "B5", "G3", "G13", "G5", "G6", "G7", "F13", "F16", "E2", "E3", "E5", "E6", "E7", "E9", "E10", "G12"] + a_rules(PIPE + ALG),
         "explanation": "Decided: the capture pipeline is Compact(Replace(Capture)) and returns that hook's ops (F1); Compact "
                        "replays every buffered op once, in order, then finishes, Replace flushes in order (B5); every op "
                        "constructed or forwarded in compact/replace/capture/common/types takes old-side fields from old-"
@@ -121,7 +121,7 @@ PROPERTIES = {
     },
     "C09": {
         "level": "other",
-        "rules": ["E1", "B4", "B5", "B8", "F1", "G3", "G9", "G10", "G12", "G5", "G6", "G7", "F13", "F16", "F31"],
+        "rules": ["E1", "B4", "B5", "B8", "F1", "G3", "G9", "G10", "G12", "G13", "G5", "G6", "G7", "F13", "F16", "F31"],
         "explanation": "Decided: no algorithm emits an empty op (E1); Replace merges runs and emits delete/replace before "
                        "insert, flushing in order (B5); both adapters are in the capture pipeline, Compact outside Replace (F1)."
                        "  Alternation after compaction and 'insertion sits at its latest position' are NOT examined.  Round 3: only an op tested to be Equal absorbs equal items (G7); merged same-kind ops grow by the right side (F13); the insert/delete slide-down arms are twins (F16); no stale op snapshot across list mutation (G5).",
@@ -129,7 +129,7 @@ PROPERTIES = {
     },
     "C10": {
         "level": "other",
-        "rules": ["F5", "B4", "B5", "B8", "G3", "G9", "G10", "G12", "G5", "G6", "G7", "F13", "F16", "F31"] +
+        "rules": ["F5", "B4", "B5", "B8", "G3", "G9", "G10", "G12", "G13", "G5", "G6", "G7", "F13", "F16", "F31"] +
                  a_rules(("algorithms/compact.rs", "algorithms/replace.rs", "types.rs")),
         "explanation": "Decided (structural parts only): no slot or side mix-up in any compaction arm or in Replace (A1-A5, A7), "
                        "helpers move start and length consistently (F5), Replace/Compact typestate (B5), Compact buffers exactly "
@@ -138,7 +138,7 @@ PROPERTIES = {
     },
     "C11": {
         "level": "other",
-        "rules": ["G1", "G3", "G5", "G6", "G7", "F5", "F10", "F16", "A4", "A9", "A11", "E3", "E5", "E6", "E7", "E8", "B6",
+        "rules": ["G1", "G3", "G13", "G5", "G6", "G7", "F5", "F10", "F16", "A4", "A9", "A11", "E3", "E5", "E6", "E7", "E8", "B6",
                   ("A1", infile("types.rs", "algorithms/compact.rs", "algorithms/replace.rs", "algorithms/lcs.rs",
                                 "algorithms/myers.rs", "algorithms/patience.rs"))],
         "explanation": "Decided: every order-changing operation on a list of ops is followed by a rewrite of the affected "
